@@ -6,12 +6,12 @@ INV = ("TypeOK AtMostOneReply ExactlyOneWhenFinished OneLeaderPerGeneration Foll
 ACT = "TombstoneNeverLinked LocalOnlyFromOwnDownstream CachedFailNeedsSharedFailure"
 
 def consts(reqs, keys, keyof, internal, probe, maxgen, D=2, W=3, maxT=0, maxArr=0, timed=False,
-           urgent=False, dup=True, guard=True, defensive=False):
+           urgent=False, dup=True, guard=True, defensive=False, env=True):
     b = lambda x: "TRUE" if x else "FALSE"
     return ("CONSTANTS\n  Reqs = %s\n  Keys = %s\n  KeyOf <- %s\n  Internal = %s\n  Probe = %s\n  MaxGen = %d\n"
             "  MaxRegroups = 1\n  D = %d\n  W = %d\n  MaxT = %d\n  MaxArrive = %d\n  Timed = %s\n  Urgent = %s\n"
-            "  DupWrite = %s\n  WriterGuard = %s\n  Defensive = %s\n" % (
-                reqs, keys, keyof, internal, probe, maxgen, D, W, maxT, maxArr, b(timed), b(urgent), b(dup), b(guard), b(defensive)))
+            "  DupWrite = %s\n  WriterGuard = %s\n  Defensive = %s\n  EnvOn = %s\n" % (
+                reqs, keys, keyof, internal, probe, maxgen, D, W, maxT, maxArr, b(timed), b(urgent), b(dup), b(guard), b(defensive), b(env)))
 
 def mc(name, c, inv="", props=""):
     open("MC_%s.cfg" % name, "w").write(
@@ -58,3 +58,5 @@ for name, c in (("Ord", ORD), ("Probe", PROBE), ("Split", SPLIT), ("Four", FOUR)
 sim("OrdT", consts(**ORD, maxT=6, maxArr=2, timed=True))
 sim("ProbeT", consts(**PROBE, maxT=6, maxArr=2, timed=True))
 sim("Defensive", consts(**PROBE, defensive=True))
+sim("ProbeQ", consts(**PROBE, env=False))
+sim("FourQ", consts(**FOUR, env=False))
